@@ -378,4 +378,46 @@ func init() {
 		Outside:     []string{"that the process is actually killed shortly after the deadline, and that the interpreter reports an overrun as a context error rather than an exit status (a child that exits on SIGINT is reported by mvdan.cc/sh as an ordinary status - read in interp/handler.go, not encodable)", "wall-clock units", "the claim is at wiring level: every job carries the timeout, each Execute derives a fresh deadline of the full duration, and the runner reacts correctly to the deadline error"},
 		Assumptions: []string{"context.WithTimeout intrinsic: deadline = now + d", "stub: interp.Runner.Run returns context.DeadlineExceeded iff start + duration > deadline", "time.Now: arbitrary non-decreasing instants"},
 		Replay:      map[string]*ReplaySpec{"*": {PkgDir: "internal/config", File: "C13_replay_test.go", Test: "TestVerifReplayC13"}}})
+
+	c17jobs := func(tier string) []*Job {
+		var js []*Job
+		mk := func(n int64) {
+			parts := int64(1)
+			for i := int64(0); i < n; i++ {
+				parts *= 3
+			}
+			for p := int64(0); p < parts; p++ {
+				js = append(js, &Job{Pkg: pkgConfig, Func: "VerifC17", Args: []int64{n, p}, Timeout: 60 * time.Minute, MaxSteps: 2000000000})
+			}
+		}
+		mk(2)
+		mk(3)
+		if tier == "thorough" {
+			mk(4)
+		}
+		return js
+	}
+	register(&PropSpec{ID: "C17", Jobs: c17jobs,
+		Covers: []string{"C17.all-imports-fine", "C17.broken-import", "C17.import-cycle-or-self-import"},
+		Bounds: map[string]interface{}{
+			"quick":    "2 and 3 files in two directories (/p/a.yaml root, /p/b.yaml, /p/sub/c.yaml) plus the directory /p/sub; every file has 0..2 imports, each a symbolic member of {the files, the directory, a missing name} written relative to the importing file (self-imports, mutual imports, repeats, directory imports all arise); per file symbolic exists / parses",
+			"thorough": "4 files (adds /p/sub/d.yaml)",
+		},
+		Outside:     []string{"URL imports", "what mergo does with the merged maps (mergo.Merge is a recording stub)", "the global configuration clause of the property: Config.merge = mergo on structs (reflection, not encodable) - not claimed", "more than 4 files / 2 imports per file"},
+		Assumptions: []string{"stubs: utils.FileExists, os.Stat, Loader.readFile (returns the symbolic import list or a parse error), filepath.Glob, mergo.Merge (records importer/imported), utils.IsURL=false", "path.Join / path.Dir: exact on finite-domain strings (every combination joined with the real functions)"},
+		Replay:      map[string]*ReplaySpec{"*": {PkgDir: "internal/config", File: "C17_replay_test.go", Test: "TestVerifReplayC17"}}})
+
+	register(&PropSpec{ID: "C18",
+		Jobs: func(tier string) []*Job {
+			return []*Job{{Pkg: pkgConfig, Func: "VerifC18", Args: []int64{0}, Timeout: 30 * time.Minute, MaxSteps: 500000000},
+				{Pkg: pkgConfig, Func: "VerifC18", Args: []int64{1}, Timeout: 30 * time.Minute, MaxSteps: 2000000000}}
+		},
+		Covers: []string{"C18.accepted", "C18.rejected", "C18.accepted-pipelines-ran-to-completion", "C18.well-formed-accepted"},
+		Bounds: map[string]interface{}{
+			"quick":    "one task, pipeline p1 with two stages and p2 with one stage, one watcher; per stage a symbolic reference over {existing task, unknown task, p1, p2, unknown pipeline}, a symbolic explicit name over {none, x, y}, and an optional depends_on entry over {x, y, t1, p2, unknown}; watcher task existing / unknown. Built by the real buildFromDefinition / buildPipeline / buildTask / graph; accepted configurations are then RUN (both pipelines) by the real scheduler in thread mode with a stub runner",
+			"thorough": "same",
+		},
+		Outside:     []string{"more than 2 pipelines / 3 stages; inclusion cycles longer than 2", "watch.NewWatcher (fsnotify, globbing) is stubbed", "the parsers and mapstructure (the definition is constructed directly)"},
+		Assumptions: []string{"map iteration in insertion order (p1 before p2)", "stub runner: tasks succeed"},
+		Replay:      map[string]*ReplaySpec{"*": {PkgDir: "internal/config", File: "C18_replay_test.go", Test: "TestVerifReplayC18"}}})
 }
